@@ -1,5 +1,7 @@
 import PyodaProofs.C05
+import PyodaProofs.C05StartOfDay
 import PyodaProofs.C04Spec
+import PyodaProofs.C04Zone
 
 #print axioms Pyoda.C05.containsLocal_iff
 #print axioms Pyoda.C05.mapLocal_sound
@@ -13,3 +15,7 @@ import PyodaProofs.C04Spec
 #print axioms Pyoda.C05.startOfDay_spec_partial
 #print axioms Pyoda.C05.toy_spec
 #print axioms Pyoda.C04.dataOK_gives_spec
+#print axioms Pyoda.C04.zoneOK_gives_spec
+#print axioms Pyoda.C05.mapLocal_intervals_valid
+#print axioms Pyoda.C05.no_earlier_on_date
+#print axioms Pyoda.C05.startOfDay_spec
